@@ -722,11 +722,12 @@ class FunctionCheck:
                 cnt[what] = cnt.get(what, 0) + 1
                 hy = self.hyps + pc + cp.facts + ([dom] if dom is not sp.true else [])
                 ck.prove("%s/defined.%s#%d%s" % (qn, what.strip("<>"), cnt[what], tag), hy, cond, kind="defined", boxes=boxes, replay=finite_replay,
+                         complete=False,  # numbered by occurrence: the same name may denote another operation after a restructuring
                          clause="%s at %s is applied inside its domain: %s" % (what, where, str(cond)[:120]))
             for cond, exc, what, where, pc in cp.may_raise:
                 cnt[exc] = cnt.get(exc, 0) + 1
                 hy = self.hyps + pc + cp.facts
-                ck.prove("%s/noraise.%s#%d%s" % (qn, exc, cnt[exc], tag), hy, sp.Not(cond), kind="defined", boxes=boxes, replay=finite_replay,
+                ck.prove("%s/noraise.%s#%d%s" % (qn, exc, cnt[exc], tag), hy, sp.Not(cond), kind="defined", boxes=boxes, replay=finite_replay, complete=False,
                          clause="%s (%s at %s) cannot occur" % (exc, what, where))
         return self
 
